@@ -45,17 +45,18 @@ def _run_case(case: dict, repo: str) -> dict:
                 res.update(outcome="not-applicable", detail="patch does not apply to the current tree")
                 return res
         else:
-            path = os.path.join(d, case["file"])
-            src = open(path).read() if os.path.exists(path) else ""
-            if src.count(case["find"]) != 1:
-                res.update(outcome="not-applicable", detail=f"anchor text occurs {src.count(case['find'])}x")
-                return res
-            open(path, "w").write(src.replace(case["find"], case["replace"]))
-            try:
-                compile(open(path).read(), path, "exec")
-            except SyntaxError as e:
-                res.update(outcome="broken-case", detail=f"mutant does not compile: {e}")
-                return res
+            for (cfile, cfind, crepl) in [(case["file"], case["find"], case["replace"])] + list(case.get("extra", [])):
+                path = os.path.join(d, cfile)
+                src = open(path).read() if os.path.exists(path) else ""
+                if src.count(cfind) != 1:
+                    res.update(outcome="not-applicable", detail=f"anchor text occurs {src.count(cfind)}x in {cfile}")
+                    return res
+                open(path, "w").write(src.replace(cfind, crepl))
+                try:
+                    compile(open(path).read(), path, "exec")
+                except SyntaxError as e:
+                    res.update(outcome="broken-case", detail=f"mutant does not compile: {e}")
+                    return res
         env = dict(os.environ, VERIF_SCRATCH_EVIDENCE=os.path.join(d, "_evidence"))
         p = subprocess.run([PY, "-m", "sa.main", case["property"], "--tier", "quick", "--repo", d],
                            cwd=VERIF, capture_output=True, text=True, env=env, timeout=600)
